@@ -189,11 +189,9 @@ static enum cc_stat expand_capacity(CC_PQueue *pq)
     /* As long as the capacity is greater that the expansion factor
      * at the point of overflow, this is check is valid. */
     if (new_capacity <= pq->capacity)
-        pq->capacity = CC_MAX_ELEMENTS;
-    else
-        pq->capacity = new_capacity;
+        new_capacity = CC_MAX_ELEMENTS;
 
-    void **new_buff = pq->mem_alloc(pq->capacity * sizeof(void*));
+    void **new_buff = pq->mem_alloc(new_capacity * sizeof(void*));
 
     if (!new_buff)
         return CC_ERR_ALLOC;
@@ -201,7 +199,8 @@ static enum cc_stat expand_capacity(CC_PQueue *pq)
     memcpy(new_buff, pq->buffer, pq->size * sizeof(void*));
 
     pq->mem_free(pq->buffer);
-    pq->buffer = new_buff;
+    pq->buffer   = new_buff;
+    pq->capacity = new_capacity;
 
     return CC_OK;
 }
